@@ -307,6 +307,23 @@ pub fn fix_record_layout_positions(g: &Grammar, rng: &mut Rng, kids: &mut [Elem]
     let mut positions: Vec<i128> = (1..=idxs.len() as i128).map(|p| p * 3).collect();
     if !canonical {
         rng.shuffle(&mut positions);
+        // RESERVED is the only restricted element that can occur several times. Out of position
+        // order the reloaded RESERVED list is permuted (known finding of C01, which ends the
+        // judgement of that document), so most documents keep the RESERVED items ascending among
+        // themselves while the other restricted elements stay shuffled.
+        if rng.chance(6, 7) {
+            let slots: Vec<usize> = idxs
+                .iter()
+                .enumerate()
+                .filter(|(_, i)| kids[**i].tag == "RESERVED")
+                .map(|(k, _)| k)
+                .collect();
+            let mut vals: Vec<i128> = slots.iter().map(|k| positions[*k]).collect();
+            vals.sort_unstable();
+            for (k, v) in slots.iter().zip(vals) {
+                positions[*k] = v;
+            }
+        }
     }
     for (k, i) in idxs.iter().enumerate() {
         let p = positions[k];
